@@ -242,6 +242,20 @@ def gen_C03(rng, tier):
         p.add('equals %s %s' % (ta, tc))
         p.tag('cmp', 'ties')
         progs.append(p)
+    # near-ties: operands a few units in the last place apart, at several magnitudes — they are NOT equal (the code's equality
+    # is |a-b| <= 1e-240), so eq / ne / gt / … / elmax / elmin / Equals must tell them apart
+    for i in range(cnt // 2):
+        p = Prog('c03_n%d' % i)
+        shape = rand_shape(rng, 3, 3, 0)
+        n = prod(shape)
+        a = [rng.choice([1.0, -1.0, 1e-12, 1 - 1e-12, 0.5, 3.0, 1e100, -1e-200, 1e-239, 0.0]) * rng.choice([1.0, 1.0, 0.3]) for _ in range(n)]
+        b = [ulps(x, rng.choice([-8, -4, -2, -1, 0, 1, 2, 4, 8])) for x in a]
+        ta, tb = p.tensor(shape, a), p.tensor(shape, b)
+        for c in cmps:
+            r = p.bind('%s %s %s' % (c, ta, tb)); p.add('obs %s' % r)
+        p.add('equals %s %s' % (ta, tb))
+        p.tag('cmp', 'near-ties-ulps')
+        progs.append(p)
     # arithmetic with implicit broadcasting, both directions, vs explicit broadcast first
     bc = 300 if tier == 'quick' else 6000
     for i in range(bc):
